@@ -106,6 +106,13 @@ MatESCN(e) == e.obs.escn # <<>> =>
          IF a # b /\ IsNum(ESDirected(e)[a][b]) /\ ESDirected(e)[a][b] > Tol THEN 1
          ELSE IF a # b /\ IsNum(ESDirected(e)[a][b]) /\ ESDirected(e)[a][b] > 0 THEN e.obs.escn_adj[a][b]
          ELSE 0]]
+\* EventSeriesClimateNetwork built for coincidence rates and asked, as one object, for every window type and
+\* symmetrisation in turn: the matrices of the plain EventSeries object (themselves held against ECAWindow above)
+MatESCNECA(e) == e.obs.escn_eca_w0 # "" =>
+   /\ CloseMat(e.obs.escn_eca_first, e.obs.eca[e.obs.escn_eca_w0].directed, Tol)
+   /\ \A w \in 1..3 : \A k \in 1..Len(ECAOpts) :
+        CloseMat(e.obs.escn_eca[Windows[w]][ECAOpts[k]], e.obs.eca[Windows[w]][ECAOpts[k]], Tol)
+   /\ CloseMat(e.obs.escn_es_after, e.obs.es.directed, Tol)
 MatTags(e) == "mat" \o (IF e.tm = INF THEN ",unbounded" ELSE "") \o (IF e.lag # 0 THEN ",lag" ELSE "")
 MatVerdict(e) ==
   LET R(c, s) == <<"REJECT", c, s, MatTags(e)>> IN
@@ -116,6 +123,7 @@ MatVerdict(e) ==
   ELSE IF ~MatECASym(e) THEN R("Symmetrisation", "event_series_analysis(ECA)")
   ELSE IF ~MatRange(e) THEN R("Range01", "event_series_analysis")
   ELSE IF ~MatESCN(e) THEN R("MatrixDef", "EventSeriesClimateNetwork(ES)")
+  ELSE IF ~MatESCNECA(e) THEN R("MatrixDef", "EventSeriesClimateNetwork(ECA).event_series_analysis")
   ELSE <<"ACCEPT", "", "", MatTags(e)>>
 
 \* ---- thresholding ------------------------------------------------------------------
